@@ -107,7 +107,8 @@ def _bad_annotation(R, level):
     """(kind, text) of a faulty annotation for the level base|frag"""
     kind = R.choice(['two_eq', 'too_many', 'non_numeric'])
     if kind == 'two_eq':
-        text = R.choice([';w=ab=c', ';foo=a=b', ';q=1=2' if level == 'base' else ';w=1=2', ';w=0.5;k==v'])
+        text = R.choice([';w=ab=c', ';foo=a=b', ';q=1=2' if level == 'base' else ';w=1=2', ';w=0.5;k==v',
+                         ';q=1=2;q=1' if level == 'base' else ';w=1=2;w=1', ';foo=a=b;foo=a'])
     elif kind == 'too_many':
         if level == 'base':
             text = R.choice([';1;2;3', ';0;0.5;abc', ';1;1;1;1', ';0;0.5;', ';1;2;;'])
@@ -247,6 +248,11 @@ def gen(R, tier):
                     continue
                 a2 = copy.deepcopy(ast)
                 list(gram.all_nodes(a2))[i].name = 'UNDEF'
+                if R.chance(0.3):
+                    # a bonded neighbour is undefined as well
+                    nb = [b if a == i else a for (a, b), o in edges.items() if i in (a, b) and o >= 1]
+                    if nb:
+                        list(gram.all_nodes(a2))[R.choice(nb)].name = 'UNDEF'
                 gn, ge = gram.interpret(a2)
                 order = list(range(len(gn)))
                 R.shuffle(order)
